@@ -729,6 +729,9 @@ pub struct Run {
     pub tfhd_default_size: bool,
     pub trun_sample_flags: bool,
     pub first_sample_flags: bool,
+    /// with an explicit base data offset, ALSO set the default-base-is-moof flag (the explicit
+    /// base still wins: ISO/IEC 14496-12 8.8.7, and the statement's "explicit base, else ...")
+    pub also_default_base_flag: bool,
 }
 
 #[derive(Debug, Clone)]
@@ -800,6 +803,9 @@ fn build_fragments(fm: &FragMovie, origin: u64, xf: &dyn Fn(&mut BoxT)) -> (Vec<
                         // counted from base) or the end of mdat (negative offsets)
                         base = if r.negative_offset { mdat_end } else { data_starts[ri] - pads[ri] as u64 };
                         tf.base_data_offset = Some(base);
+                        if r.also_default_base_flag {
+                            tf.extra_flags |= 0x020000;
+                        }
                     }
                     BaseMode::DefaultBaseIsMoof => {
                         tf.extra_flags |= 0x020000;
@@ -992,11 +998,12 @@ pub fn gen_frag_movie(rng: &mut Rng, max_frags: u32, max_tracks: u32, max_run: u
                 tfhd_default_size: rng.chance(1, 4),
                 trun_sample_flags: rng.chance(1, 3),
                 first_sample_flags: rng.chance(1, 4),
+                also_default_base_flag: rng.chance(1, 3),
             };
             next_time[track] = r.base_decode_time + 1000;
             runs.push(r);
         }
-        fragments.push(Fragment { runs, moof_large: false });
+        fragments.push(Fragment { runs, moof_large: rng.chance(1, 6) });
     }
     FragMovie { movie, trex, fragments, styp: rng.chance(1, 3), with_mehd: rng.chance(1, 3) }
 }
